@@ -551,6 +551,7 @@ func runC17(c *Ctx, r *Report) {
 		"a local of parseOptions that one option handler (closure) sets from its argument and another handler reads is also stored, on every path of the setter, into a field reachable from opts — parseOptions runs once per layer (file, environment, argv) and its locals do not survive",
 		"an option given in $FZF_DEFAULT_OPTS is silently lost when the related option comes from the command line (--history-size in the environment with --history on the command line: file never capped)")
 	c17r8(c, r, pos)
+	c17r9(c, r)
 
 	if c.thorough() {
 		// ---------------- R5 ----------------
